@@ -222,7 +222,9 @@ func (s *FixedSliceReader) ReadBytes(n int) []byte {
 		s.err = ErrSliceRead
 		return []byte{}
 	}
-	res := s.slice[s.pos : s.pos+n]
+	// The capacity is limited to the bytes read, so that appending to the result
+	// can never write into the bytes that follow in the underlying slice.
+	res := s.slice[s.pos : s.pos+n : s.pos+n]
 	s.pos += n
 	return res
 }
